@@ -16,24 +16,36 @@ open XmppModel XmppModel.Xml XmppModel.Stanza
 
 /-! ### Tie to the source: the constant tables -/
 
-/-- the defined message types, read from `stanza/message.go`, are the ones `msgType` accepts -/
-theorem C13_gen_message_types : Generated.C13.messageTypes = some messageTypes := by decide
+/-- two lists hold the same strings -/
+def sameSet (a b : List String) : Bool := a.all (b.contains ·) && b.all (a.contains ·)
+
+/-- the defined message types — EVERY package-level constant of type `stanza.MessageType`, in
+whichever file and form it is declared (go/types scope of the package, not a file/syntax match) —
+are the ones `msgType` accepts -/
+theorem C13_gen_message_types :
+    ∃ l, Generated.C13.messageTypes = some l ∧ sameSet l messageTypes = true := ⟨_, rfl, by decide⟩
 
 /-- the other type tables and the namespaces the model uses -/
 theorem C13_gen_tables :
-    Generated.C13.iqTypes = some ["get", "set", "result", "error"] ∧
-    Generated.C13.presenceTypes = some ["", "error", "probe", "subscribe", "subscribed", "unavailable",
-      "unsubscribe", "unsubscribed"] ∧
-    Generated.C13.errorTypes = some ["cancel", "auth", "continue", "modify", "wait"] ∧
+    (∃ l, Generated.C13.iqTypes = some l ∧ sameSet l ["get", "set", "result", "error"] = true) ∧
+    (∃ l, Generated.C13.presenceTypes = some l ∧ sameSet l ["", "error", "probe", "subscribe", "subscribed",
+      "unavailable", "unsubscribe", "unsubscribed"] = true) ∧
+    (∃ l, Generated.C13.errorTypes = some l ∧ sameSet l ["cancel", "auth", "continue", "modify", "wait"] = true) ∧
     Generated.C13.nsStanzaErr = some nsErr ∧ Generated.C13.nsStream = some nsStream ∧
-    Generated.C13.nsStreamErr = some nsStreamErr := by decide
+    Generated.C13.nsStreamErr = some nsStreamErr :=
+  ⟨⟨_, rfl, by decide⟩, ⟨_, rfl, by decide⟩, ⟨_, rfl, by decide⟩, by decide, by decide, by decide⟩
 
 /-- no defined stanza or stream error condition is called `text` (hypothesis of the two
 round-trip theorems) -/
 theorem C13_gen_no_text_condition :
     ∃ a b, Generated.C13.stanzaConditions = some a ∧ Generated.C13.streamConditions = some b ∧
-      "text" ∉ a ∧ "text" ∉ b ∧ "" ∉ a ∧ "" ∉ b := by
-  refine ⟨_, _, rfl, rfl, by decide, by decide, by decide, by decide⟩
+      "text" ∉ a ∧ "text" ∉ b ∧ "" ∉ a ∧ "" ∉ b ∧ a.length ≥ 20 ∧ b.length ≥ 20 := by
+  refine ⟨_, _, rfl, rfl, by decide, by decide, by decide, by decide, by decide, by decide⟩
+
+/-- the predefined stream errors (every package-level variable of type `stream.Error`) set their
+condition and nothing else — no default text or content that the codec model would have to carry —
+and each is written in a form the extractor can evaluate -/
+theorem C13_gen_stream_conditions_plain : Generated.C13.streamConditionsOther = some [] := by decide
 
 /-! ### Start-element conversion is the inverse of start-element parsing -/
 
@@ -129,7 +141,7 @@ theorem C13_new_start_reparse (parse : String → Option String)
 /-! ### The struct-tag path agrees with the token path (start elements) -/
 
 /-- the iq types read from the source are the model's -/
-theorem C13_gen_iq_types : Generated.C13.iqTypes = some iqTypes := by decide
+theorem C13_gen_iq_types : ∃ l, Generated.C13.iqTypes = some l ∧ sameSet l iqTypes = true := ⟨_, rfl, by decide⟩
 
 /-- the struct definitions the model of the struct-tag path (`marshalAttrs`, `reflectNew`) is
 written for: field order, field types and `xml` tags of the three stanza types -/
@@ -218,6 +230,38 @@ theorem C13_paths_agree_fails_namespace (parse : String → Option String) (k : 
 example : reflectNew (fun s => some s) .iq (marshalName .iq)
     (marshalAttrs .iq ⟨⟨"jabber:server", "iq"⟩, "i", "", "a@b", "", "get"⟩) =
     some ⟨⟨"", "iq"⟩, "i", "", "a@b", "", "get"⟩ := by decide
+
+/-- **Outside the defined constants the two paths disagree for IQs — and only for IQs** (review B,
+C13-2).  The premise "type field is one of the defined constants" is needed: for `IQ{Type: ""}`
+the standard marshaller prints `type="get"` (`IQType.MarshalText`) while `StartElement()` prints
+`type=""`, and both are read back verbatim, so the two encodings decode to different values.  For
+messages BOTH paths turn an undefined type into `normal` (they agree, on a value that is not the
+original), for presence NEITHER path touches the type (they agree on the original). -/
+theorem C13_paths_agree_fails_empty_iq_type :
+    (reflectNew some .iq (marshalName .iq) (marshalAttrs .iq ⟨⟨"", "iq"⟩, "i", "", "", "", ""⟩)
+        = some ⟨⟨"", "iq"⟩, "i", "", "", "", "get"⟩ ∧
+      reflectNew some .iq (startName .iq ⟨⟨"", "iq"⟩, "i", "", "", "", ""⟩) (startAttrs .iq ⟨⟨"", "iq"⟩, "i", "", "", "", ""⟩)
+        = some ⟨⟨"", "iq"⟩, "i", "", "", "", ""⟩) ∧
+    (∀ t, t ∉ messageTypes → t ≠ "" →
+      reflectNew some .message (marshalName .message) (marshalAttrs .message ⟨⟨"", "message"⟩, "i", "", "", "", t⟩)
+        = some ⟨⟨"", "message"⟩, "i", "", "", "", "normal"⟩ ∧
+      reflectNew some .message (startName .message ⟨⟨"", "message"⟩, "i", "", "", "", t⟩)
+          (startAttrs .message ⟨⟨"", "message"⟩, "i", "", "", "", t⟩)
+        = some ⟨⟨"", "message"⟩, "i", "", "", "", "normal"⟩) ∧
+    (∀ t, reflectNew some .presence (marshalName .presence) (marshalAttrs .presence ⟨⟨"", "presence"⟩, "i", "", "", "", t⟩)
+        = reflectNew some .presence (startName .presence ⟨⟨"", "presence"⟩, "i", "", "", "", t⟩)
+          (startAttrs .presence ⟨⟨"", "presence"⟩, "i", "", "", "", t⟩)) := by
+  refine ⟨⟨by decide, by decide⟩, ?_, ?_⟩
+  · intro t ht hne
+    have hm : msgType t = "normal" := by simp [msgType, ht]
+    have hn : msgType "normal" = "normal" := by decide
+    constructor <;>
+      simp [reflectNew, reflectLoop, reflectStep, marshalAttrs, startAttrs, startName, marshalName, attr0, langAttr,
+        nsXML, Kind.loc, hm, hn, hne]
+  · intro t
+    by_cases h : t = "" <;>
+      simp [reflectNew, reflectLoop, reflectStep, marshalAttrs, startAttrs, startName, marshalName, attr0, langAttr,
+        nsXML, Kind.loc, h]
 
 /-! ### Wrapping helpers -/
 
